@@ -901,6 +901,29 @@ def main():
                     ok = tuple(ob.shape) == tuple(sp.shape) and str(ob.dtype) == str(sp.low.dtype)
                     ck.fact(f"types.{snake(n)}.obs@{fl_}={not dflt}", ok, f"observation {ob.dtype}{list(ob.shape)} vs declared space {sp.low.dtype}{list(sp.shape)}")
             pump(pool)
+        # the other documented boolean options (terminate_when_unhealthy, ...): with the option at its non-default value reward / terminal / truncate
+        # are still jax arrays of the stated type -- read from the filtered trace, where a Python bool / float leaking out of a method is a STATIC
+        # output (eval_shape would silently abstractify it)
+        for n in MUJOCO:
+            cls = getattr(MJ, n)
+            others = [p_.name for p_ in _inspect.signature(cls.__init__).parameters.values()
+                      if isinstance(p_.default, bool) and not (p_.name.startswith("include_") or p_.name.startswith("exclude_"))]
+            for fl_ in others:
+                with ck.section(f"types.{snake(n)}.flag.{fl_}"):
+                    dflt = _inspect.signature(cls.__init__).parameters[fl_].default
+                    env = cls(**{fl_: not dflt})
+                    st_ = _MjState(_mjx.make_data(env.model), jnp.array(0.0))
+                    act_ = jnp.zeros(env.action_space.shape, jnp.float32)
+                    sigs = {"terminal": (lambda s, a, k: env.terminal(s, key=k), "bool"), "truncate": (lambda s, a, k: env.truncate(s), "bool"),
+                            "reward": (lambda s, a, k: env.reward(s, a, s, key=k), "float32")}
+                    for sname, (f_, want_dt) in sigs.items():
+                        _, dyn, static = eqx.filter_make_jaxpr(f_)(st_, act_, jr.key(0))
+                        leaves = jax.tree_util.tree_leaves(dyn)
+                        stat = [x for x in jax.tree_util.tree_leaves(static) if x is not None]
+                        ok = len(leaves) == 1 and not stat and tuple(leaves[0].shape) == () and str(leaves[0].dtype) == want_dt
+                        ck.fact(f"types.{snake(n)}.{sname}@{fl_}={not dflt}", ok,
+                                f"array outputs {[(str(l.dtype), list(l.shape)) for l in leaves]}, non-array (Python) outputs {[type(x).__name__ + ':' + repr(x) for x in stat]}")
+            pump(pool)
         for n in G1:
             with ck.section(f"actions.{snake(n)}"):
                 env = getattr(G1M, n)()
